@@ -157,6 +157,9 @@ package internal
 //@   allocates
 //@   ensures mutations == old(mutations) && epCalls == old(epCalls) && epCode == old(epCode) && epVal == old(epVal)
 //@   ensures err != nil ==> beErr(err) || fromEnv(err)
+//@   ensures err == nil ==> val != nil
+//@   -- a constant property function (closure of PropFindValue's literal, closure rule) returns its value
+//@   ensures smt("bool", "(pfConst $0)", self) ==> err == nil && val == smt("$Iface", "(pfRet $0)", self)
 //@ spec namedRaw(v RawXMLValue) bool = dynIs(v.tok, "xml.StartElement")
 //@ spec rawName(v RawXMLValue) xml.Name = dynVal(v.tok, "xml.StartElement").Name
 //@ -- the element name of the i-th value filed through EncodeProp (ghost log)
@@ -165,6 +168,10 @@ package internal
 //@ spec propFormOnly(pf *PropFind) bool = pf.PropName == nil && pf.AllProp == nil && pf.Prop != nil
 //@ -- every requested property is an element (which is what RawXMLValue.UnmarshalXML stores for the children of DAV:prop)
 //@ spec allNamed(pf *PropFind) bool = pf.Prop != nil && (forall j int :: 0 <= j && j < len(pf.Prop.Raw) ==> namedRaw(pf.Prop.Raw[j]))
+//@ spec isConstFn(f PropFindFunc) bool = smt("bool", "(pfConst $0)", f)
+//@ spec constVal(f PropFindFunc) interface{} = smt("$Iface", "(pfRet $0)", f)
+//@ spec loggedCode(i int) int = smt("int", "(select $0 $1)", epCode, i)
+//@ spec loggedVal(i int) interface{} = smt("$Iface", "(select $0 $1)", epVal, i)
 //@ func internal.NewPropFindResponse(path, propfind, props) (resp, err)
 //@   requires R1: propfind != nil && props != nil
 //@   requires R2: forall k xml.Name :: has(props, k) ==> props[k] != nil
@@ -188,6 +195,10 @@ package internal
 //@   -- allprop: one value is filed per property the resource has (every key is visited exactly once, T-go)
 //@   ensures A8: propfind.PropName == nil && propfind.AllProp != nil ==> epCalls == old(epCalls) + old(len(props)) + (old(has(props, ResourceTypeName)) ? 0 : 1)
 //@   ensures A7: propfind.PropName != nil ==> (forall i int :: old(epCalls) <= i && i < epCalls ==> (let n : loggedName(i) in old(has(props, n)) || n == ResourceTypeName))
+//@   -- prop form: a requested property the resource has as a constant property function (PropFindValue) is filed under 200
+//@   -- with exactly that function's value, at its position in request order
+//@   ensures A9: propFormOnly(propfind) && old(allNamed(propfind)) ==> (forall j int :: 0 <= j && j < old(len(propfind.Prop.Raw)) && old(has(props, rawName(propfind.Prop.Raw[j])) && isConstFn(props[rawName(propfind.Prop.Raw[j])]))
+//@   |   ==> loggedCode(old(epCalls) + j) == 200 && loggedVal(old(epCalls) + j) == old(constVal(props[rawName(propfind.Prop.Raw[j])])))
 //@   loop 1 invariant I1: resp != nil && fresh(resp) && psDistinct(resp) && len(resp.Hrefs) == 1 && resp.Hrefs[0].Path == path && resp.Status == nil && mutations == old(mutations) && epCalls >= old(epCalls)
 //@   loop 1 invariant I2: forall k int :: old(epCalls) <= k && k < epCalls ==> smt("int", "(select $0 $1)", epCode, k) == 200
 //@   loop 1 invariant I3: (forall k xml.Name :: has(props, k) ==> props[k] != nil) && (forall k xml.Name :: has(props, k) <==> (old(has(props, k)) || k == ResourceTypeName))
@@ -204,6 +215,9 @@ package internal
 //@   |   ==> smt("int", "(select $0 $1)", epCode, old(epCalls) + j) == 404
 //@   loop 3 invariant I4: (forall k int :: 0 <= k && k < len(resp.PropStats) ==> fresh(resp.PropStats[k].Prop.Raw)) && (forall j int :: 0 <= j && j < len(propfind.Prop.Raw) ==> propfind.Prop.Raw[j] == old(propfind.Prop.Raw[j]))
 //@   |   && propfind.Prop == old(propfind.Prop) && propfind.Prop.Raw == old(propfind.Prop.Raw)
+//@   loop 3 invariant C5: old(allNamed(propfind)) ==> forall j int :: 0 <= j && j < #i && old(has(props, rawName(propfind.Prop.Raw[j])) && isConstFn(props[rawName(propfind.Prop.Raw[j])]))
+//@   |   ==> loggedCode(old(epCalls) + j) == 200 && loggedVal(old(epCalls) + j) == old(constVal(props[rawName(propfind.Prop.Raw[j])]))
+//@   loop 3 invariant C6: forall k xml.Name :: old(has(props, k)) ==> props[k] == old(props[k])
 //@   loop 3 invariant I3: (forall k xml.Name :: has(props, k) ==> props[k] != nil) && (forall k xml.Name :: has(props, k) <==> (old(has(props, k)) || k == ResourceTypeName))
 //@ -- error answers (C13, C17): the status is the error's HTTP code, 500 for an error without one; the error text is the body
 //@ func internal.ServeError(w, err)
@@ -232,6 +246,8 @@ package internal
 //@ func internal.(*Response).EncodeProp(resp, code, v) (err)
 //@   requires R1: resp != nil
 //@   requires R2: psDistinct(resp)
+//@   -- a property is accounted for with an element (its value, or the empty element under an error status), never with nil
+//@   requires R3: v != nil
 //@   allocates
 //@   assigns H_internal_Response_PropStats, E_internal_PropStat, E_internal_RawXMLValue
 //@   -- ghost log of the values filed (call k filed value epVal[k] under status epCode[k]); used by NewPropFindResponse
@@ -261,9 +277,20 @@ package internal
 //@ -- (specs: funcvalue:internal.PropFindFunc). Their preconditions speak about the captured variables, which hold
 //@ -- where the literal is created (precondition R1 of the creating function).
 //@ func internal.PropFindValue$1(raw) (val, err)
+//@   requires C1: *value != nil
+//@   ensures VN: err == nil ==> val != nil
 //@   allocates
+//@   constfn value
+//@   ensures CONST: err == nil && val == *value
 //@   ensures V1: mutations == old(mutations) && epCalls == old(epCalls) && epCode == old(epCode) && epVal == old(epVal)
 //@   ensures V2: err == nil
+//@ -- PropFindValue(v) is the constant property function returning v (closure rule: the literal returns its captured,
+//@ -- write-once variable)
+//@ func internal.PropFindValue(value) (f)
+//@   requires R1: value != nil
+//@   allocates
+//@   noinline
+//@   ensures P1: f != nil && smt("bool", "(pfConst $0)", f) && smt("$Iface", "(pfRet $0)", f) == value
 
 //@ -- ---------------------------------------------------------------------------------------
 //@ -- C14: statuses inside a multi-status. A response / property reported with a non-success status is an error
